@@ -36,6 +36,25 @@ Proof.
   destruct (existsb ctrl_byte input); [discriminate|]. destruct (bare_use (ptokens input)); [discriminate|]. auto.
 Qed.
 
+Lemma raw_parse_op_written input vnr asdep p r :
+  raw_parse_at input vnr asdep = (AOk p, r) -> op_written vnr input p = true.
+Proof.
+  unfold raw_parse_at, op_written, relop_written.
+  destruct (take_prefix input) as [[[bl hb] relop] s2].
+  destruct (span is_namever s2) as [namever s3].
+  destruct (take_slot s3) as [[[slot sub] slotop] s4].
+  destruct (take_repo s4) as [repo s5].
+  destruct (use_part asdep s5) as [uses s6| |]; try (intros H; discriminate H).
+  unfold finish, atom_header.
+  destruct (ver_split namever) as [[pre t]|].
+  - destruct (relop =? R_none) eqn:Er; destruct vnr; cbn [andb negb orb]; try reflexivity.
+    intros H; discriminate H.
+  - destruct (relop =? R_none) eqn:Er; [|intros H; discriminate H].
+    destruct (catname_match namever) as [[cat name]|]; [|intros H; discriminate H].
+    destruct (slot_fields slot sub slotop) as [[[[sl sb] slrel] anys] sames].
+    intros H. injection H as <- _. cbn [p_verrelop]. rewrite N.eqb_refl. now rewrite !orb_true_r.
+Qed.
+
 Theorem C14_holds_proof : forall c, wf c = true -> kf c = 0 -> spec c (model c) = true.
 Proof.
   intros [ast input vnr asdep o|ast input o] Hwf Hkf.
@@ -46,11 +65,13 @@ Proof.
     + cbn [wf] in Hwf. apply andb_true_iff in Hwf as [Hwa Hpr]. apply beq_true in Hpr. subst input.
       pose proof (atom_roundtrip vnr asdep a [] Hwa ltac:(auto) (or_introl eq_refl)) as Ert. rewrite app_nil_r in Ert.
       rewrite Ert in E. injection E as <- <-. rewrite parsed_beq_refl. rewrite p_atom_denote.
-      pose proof Ert as Eok. apply raw_parse_ok in Eok as (_ & _ & _ & Hbl & Hhb & _).
+      pose proof Ert as Eok. rewrite (raw_parse_op_written _ _ _ _ _ Eok), andb_true_r.
+      apply raw_parse_ok in Eok as (_ & _ & _ & Hbl & Hhb & _).
       rewrite Hbl, Hhb. rewrite !bool_eqb_refl. rewrite beq_refl, orb_true_r.
       assert (Hpre : prefixb (print_atom a) (print_atom a) = true) by (apply prefixb_spec; exists []; now rewrite app_nil_r).
       now rewrite Hpre.
     + destruct res as [p| | |]; try reflexivity; try congruence.
+      rewrite (raw_parse_op_written _ _ _ _ _ E), andb_true_r.
       apply raw_parse_ok in E as (Hs & _ & _ & Hbl & Hhb & Hall). rewrite Hbl, Hhb, !bool_eqb_refl.
       assert (Hpre : prefixb (p_atom p) input = true) by (apply prefixb_spec; now exists r). rewrite Hpre.
       destruct asdep; cbn [orb andb]; [reflexivity|]. rewrite (Hall eq_refl) in Hs. rewrite app_nil_r in Hs. rewrite <- Hs. now rewrite beq_refl.
